@@ -843,6 +843,7 @@ func run(ci any) (res obs.Result) {
 	if !strings.HasPrefix(res.Class, "harness") {
 		res.Coq = obs.App("CARun", obs.Z(int64(c.CTTL)), obs.Z(w.now0), "["+strings.Join(steps, ";\n ")+"]", obs.List(results), obs.List(finals))
 	}
+	addon2.Dump("obs_aside", c, res.Coq)
 	return
 }
 
